@@ -134,7 +134,11 @@ pub fn frag_templates() -> Vec<&'static str> {
                 // CASE with several WHEN branches whose conditions overlap (the first true branch wins), nested in ELSE and in THEN
                 "SELECT CASE WHEN t.age > 60 THEN 'high' WHEN t.age > 30 THEN 'mid' WHEN t.age > 0 THEN 'low' ELSE 'none' END AS k, t.id AS i FROM users AS t",
                 "SELECT CASE WHEN t.amount > 400 THEN 3 WHEN t.amount > 100 THEN 2 WHEN t.amount >= 0 THEN 1 ELSE 0 END AS k, t.id AS i FROM orders AS t",
-                "SELECT CASE WHEN t.age > 20 THEN CASE WHEN t.age > 50 THEN 1 WHEN t.age > 40 THEN 2 ELSE 3 END WHEN t.age > 10 THEN 4 ELSE 5 END AS k, t.id AS i FROM users AS t"]
+                "SELECT CASE WHEN t.age > 20 THEN CASE WHEN t.age > 50 THEN 1 WHEN t.age > 40 THEN 2 ELSE 3 END WHEN t.age > 10 THEN 4 ELSE 5 END AS k, t.id AS i FROM users AS t",
+                // two windows of the same ordered sub-query in one statement (they differ by LIMIT / OFFSET only)
+                "SELECT p1.id AS a1, p2.id AS a2 FROM (SELECT t.id AS id, t.age AS b FROM users AS t ORDER BY t.id LIMIT 2 OFFSET 0) AS p1 JOIN (SELECT t.id AS id, t.age AS b FROM users AS t ORDER BY t.id LIMIT 2 OFFSET 2) AS p2 ON p1.b <> p2.id",
+                "SELECT x.id AS a FROM (SELECT t.id AS id FROM users AS t ORDER BY t.id LIMIT 3) AS x UNION ALL SELECT y.id AS a FROM (SELECT t.id AS id FROM users AS t ORDER BY t.id LIMIT 5) AS y",
+                "WITH p1 AS (SELECT t.id AS id FROM orders AS t ORDER BY t.id LIMIT 4), p2 AS (SELECT t.id AS id FROM orders AS t ORDER BY t.id LIMIT 4 OFFSET 4) SELECT p1.id AS a, p2.id AS b FROM p1 CROSS JOIN p2"]
 }
 
 /// scalar functions with their optional arguments (trim characters, substring bounds, rounding digits), casts and predicates
@@ -160,7 +164,10 @@ pub fn fn_templates() -> Vec<(&'static str, &'static str)> {
         ("fn-log2-log10", "SELECT LOG(t.age) AS a, LOG10(t.age) AS b, LOG2(t.age) AS c FROM users AS t"),
         ("fn-scalar", "SELECT t.age / 7 AS a, t.income * 2 AS b, t.age + t.id AS c FROM users AS t"),
         ("fn-scalar", "SELECT CASE WHEN t.score IS NULL THEN 0 ELSE 1 END AS a, t.score IS NOT NULL AS b FROM users AS t"),
-        ("fn-scalar", "SELECT LOG(t.age) AS a, LN(t.age) AS b, LOG(2, t.age) AS c FROM users AS t")]
+        ("fn-scalar", "SELECT LOG(t.age) AS a, LN(t.age) AS b, LOG(2, t.age) AS c FROM users AS t"),
+        // remainders and quotients of negative dividends and by negative divisors (the remainder has the sign of the dividend)
+        ("fn-scalar", "SELECT (t.age - 50) % 7 AS a, (20 - t.id) % 3 AS b, t.age % -4 AS c, (t.age - 50) % -4 AS d FROM users AS t"),
+        ("fn-scalar", "SELECT MIN((t.age - 50) % 4) AS lo, MAX((t.age - 50) % 4) AS hi, SUM((10 - t.id) % 5) AS s FROM users AS t GROUP BY t.city")]
 }
 
 pub fn run(outdir: &str, seed: u64, thorough: bool) -> serde_json::Value {
